@@ -382,6 +382,12 @@ def impl_indexed(e, case):
         f = df.create_indexed_string("f", chunksize=case["c"])
     else:
         f = fields.IndexedStringMemField(s, chunksize=case["c"])
+    obs = None
+    if h5:
+        # a second field object on the same group, obtained and read while the column is still empty (what another part of a
+        # script holds while this one writes); it must see what was written, like any other reader in the session
+        obs = s.get(df._h5group["f"])
+        _ = (len(obs), obs.data[:], obs.indices[:], obs.values[:])
     if "rounds" in case:
         data = f.data
         for ri, rnd in enumerate(case["rounds"]):
@@ -425,6 +431,8 @@ def impl_indexed(e, case):
     out = snapshot(f, df._h5group["f"] if h5 else None)
     # fill levels of the staging buffers after complete(): internal state, compared only while the attributes exist
     out["staged"] = [int(getattr(f.data, "_value_index", 0)), int(getattr(f.data, "_index_index", 0))]
+    if obs is not None and not ("rounds" in case and case.get("rewrap") == "reopen"):
+        out["obs"] = snapshot(obs, None)
     if h5:
         ds2 = _reopen(e, bio)
         f2 = ds2["df"]["f"]
@@ -495,6 +503,10 @@ def impl_plain(e, case):
     else:
         f = {"numeric": lambda: fields.NumericMemField(s, nf), "fixed": lambda: fields.FixedStringMemField(s, case["strlen"]),
              "categorical": lambda: fields.CategoricalMemField(s, nf, key), "timestamp": lambda: fields.TimestampMemField(s)}[kind]()
+    obs = None
+    if h5:
+        obs = s.get(df._h5group["f"])        # a second field object on the same group, read while the column is empty
+        _ = (len(obs), obs.data[:])
     if case.get("write"):
         f.data.write(_decode(np, case, case["parts"][0]))
     else:
@@ -504,6 +516,15 @@ def impl_plain(e, case):
     out = _plain_reads(e, case, f.data)
     out["len"] = len(f)
     out["cls"] = type(f).__name__
+    if obs is not None:
+        o2 = _plain_reads(e, case, obs.data)
+        o2["len"] = len(obs)
+        o2["cls"] = type(obs).__name__
+        if kind == "categorical":
+            o2.update(_keys(obs))
+        else:
+            o2["key_values"] = []
+        out["obs"] = o2
     if kind == "categorical":
         out.update(_keys(f))
         if h5:
@@ -575,7 +596,7 @@ def compare(case, io, mo, mode):
                 return f"dispatch {k}: impl={io[k]} model={m[k]}"
         return None
     if op == "c01_indexed":
-        for snap, where in ((io, "session"), (io.get("re"), "reopened")):
+        for snap, where in ((io, "session"), (io.get("re"), "reopened"), (io.get("obs"), "second handle")):
             if snap is None:
                 continue
             for k in ("indices", "values", "len"):
@@ -590,7 +611,7 @@ def compare(case, io, mo, mode):
         if io["staged"] != m["staged"]:
             return f"staging fill levels after complete: impl={io['staged']} model={m['staged']}"
         return None
-    for snap, where in ((io, "session"), (io.get("re"), "reopened")):
+    for snap, where in ((io, "session"), (io.get("re"), "reopened"), (io.get("obs"), "second handle")):
         if snap is None:
             continue
         for k in ("data", "len", "dtype", "slices", "items", "key_values"):
@@ -640,7 +661,8 @@ def check_spec(case, io, mode):
     if op == "c01_indexed":
         flat = [s.encode().hex() for p in case["parts"] for s in p]
         nbytes = sum(len(x) // 2 for x in flat)
-        for snap, where in ((io, "in session"), (io.get("re"), "after reopen")):
+        for snap, where in ((io, "in session"), (io.get("re"), "after reopen"),
+                            (io.get("obs"), "through a second field object held since before the write")):
             if snap is None:
                 continue
             ix = snap["indices"]
@@ -664,7 +686,8 @@ def check_spec(case, io, mode):
         return None
     # plain fields
     flat = [v for p in case["parts"] for v in p]
-    for snap, where in ((io, "in session"), (io.get("re"), "after reopen")):
+    for snap, where in ((io, "in session"), (io.get("re"), "after reopen"),
+                        (io.get("obs"), "through a second field object held since before the write")):
         if snap is None:
             continue
         why = _check_reads({"all": snap["data"], "slices": snap["slices"], "items": snap["items"]}, flat, case, where)
